@@ -228,6 +228,7 @@ func newSyncRemote(s *wireServer, src *node.Node, plan map[string]string, r *ran
 	}
 	sr := &syncRemote{c: c, src: src, plan: plan, counts: map[string]int{}, r: r}
 	c.td, c.head = td, src.Frontier().Hash
+	c.answerPings = true
 	requests := make(chan p2p.Msg, 256)
 	c.onMsg = func(m p2p.Msg) {
 		if m.Code == 16 { // the node's Status: part of the handshake
